@@ -3,6 +3,7 @@ package simrt
 import (
 	"runtime"
 	"sync"
+	"sync/atomic"
 	"unsafe"
 )
 
@@ -242,6 +243,130 @@ func CondWaitWith(wait func(), l sync.Locker) {
 	l.Unlock()
 	Blocked()
 	LockLocker(l)
+}
+
+// Condition variables, faithfully. In Go a Wait "cannot return unless awoken
+// by Broadcast or Signal" (there are no spurious wake-ups), Signal wakes the
+// goroutine that has waited longest, and Signal/Broadcast synchronise-before
+// the Wait they unblock. c.Wait(), c.Signal() and c.Broadcast() on a plain
+// sync.Cond are re-pointed here; waiters are kept in arrival order.
+
+type condWaiter struct {
+	woken bool
+	gen   int64
+}
+
+type condShadow struct {
+	c       *sync.Cond
+	waiters []*condWaiter
+}
+
+// foreignCondGen counts Signal/Broadcast calls made by goroutines outside the
+// simulation (they cannot touch the scheduler's tables): simulated waiters
+// then wake conservatively.
+var foreignCondGen atomic.Int64
+
+//go:norace
+func (s *Sim) condOf(c *sync.Cond) *condShadow {
+	for i := 0; i < len(s.conds); i++ {
+		if s.conds[i].c == c {
+			return s.conds[i]
+		}
+	}
+	sh := &condShadow{c: c}
+	n := len(s.conds)
+	bigger := make([]*condShadow, n+1)
+	for i := 0; i < n; i++ {
+		bigger[i] = s.conds[i]
+	}
+	bigger[n] = sh
+	s.conds = bigger
+	return sh
+}
+
+// CondWaitOn replaces c.Wait().
+//
+//go:norace
+func CondWaitOn(c *sync.Cond) {
+	s := cur
+	if !s.inTask() {
+		c.Wait()
+		return
+	}
+	sh := s.condOf(c)
+	w := &condWaiter{gen: foreignCondGen.Load()}
+	n := len(sh.waiters)
+	bigger := make([]*condWaiter, n+1)
+	for i := 0; i < n; i++ {
+		bigger[i] = sh.waiters[i]
+	}
+	bigger[n] = w
+	sh.waiters = bigger
+	c.L.Unlock()
+	for !w.woken && foreignCondGen.Load() == w.gen {
+		if !Blocked() {
+			break
+		}
+	}
+	if !w.woken { // woken by a goroutine outside the simulation: leave the queue
+		for i := 0; i < len(sh.waiters); i++ {
+			if sh.waiters[i] == w {
+				for k := i; k+1 < len(sh.waiters); k++ {
+					sh.waiters[k] = sh.waiters[k+1]
+				}
+				sh.waiters = sh.waiters[:len(sh.waiters)-1]
+				break
+			}
+		}
+	}
+	raceAcquire(unsafe.Pointer(c))
+	progress()
+	LockLocker(c.L)
+}
+
+// CondSignal replaces c.Signal(): the longest waiting simulated task proceeds.
+//
+//go:norace
+func CondSignal(c *sync.Cond) {
+	s := cur
+	if !s.inTask() {
+		foreignCondGen.Add(1)
+		c.Signal()
+		return
+	}
+	raceReleaseMerge(unsafe.Pointer(c))
+	sh := s.condOf(c)
+	if len(sh.waiters) > 0 {
+		sh.waiters[0].woken = true
+		for k := 0; k+1 < len(sh.waiters); k++ {
+			sh.waiters[k] = sh.waiters[k+1]
+		}
+		sh.waiters = sh.waiters[:len(sh.waiters)-1]
+		progress()
+	}
+	c.Signal() // goroutines outside the simulation wait for real
+}
+
+// CondBroadcast replaces c.Broadcast().
+//
+//go:norace
+func CondBroadcast(c *sync.Cond) {
+	s := cur
+	if !s.inTask() {
+		foreignCondGen.Add(1)
+		c.Broadcast()
+		return
+	}
+	raceReleaseMerge(unsafe.Pointer(c))
+	sh := s.condOf(c)
+	for i := 0; i < len(sh.waiters); i++ {
+		sh.waiters[i].woken = true
+	}
+	if len(sh.waiters) > 0 {
+		progress()
+	}
+	sh.waiters = sh.waiters[:0]
+	c.Broadcast()
 }
 
 // RealBlock is what the default clause added to a blocking select does when
